@@ -1408,4 +1408,404 @@ theorem stringRun_strings (vs : List (List Nat)) (rest : List PTok) (hrest : ∀
     · rfl
   | cons v vs ih => simp [stringRun, ih]
 
+-- the escape decoder against the reference escape table ----------------------------------------------------------
+
+section escapes
+open JinjaV.Spec.PyLit (StrErr simpleEscape? octValue? hexValue? takeHex takeOct escapeItem strValueF strValue)
+
+theorem simpleEscape_cases (c v : Nat) (h : simpleEscape? c = some v) :
+    (c = 92 ∧ v = 92) ∨ (c = 39 ∧ v = 39) ∨ (c = 34 ∧ v = 34) ∨ (c = 97 ∧ v = 7) ∨ (c = 98 ∧ v = 8) ∨
+    (c = 102 ∧ v = 12) ∨ (c = 110 ∧ v = 10) ∨ (c = 114 ∧ v = 13) ∨ (c = 116 ∧ v = 9) ∨ (c = 118 ∧ v = 11) := by
+  unfold simpleEscape? at h
+  repeat' split at h
+  all_goals simp_all
+
+theorem simpleEscape_none (c : Nat) (h : simpleEscape? c = none) :
+    c ≠ 92 ∧ c ≠ 39 ∧ c ≠ 34 ∧ c ≠ 97 ∧ c ≠ 98 ∧ c ≠ 102 ∧ c ≠ 110 ∧ c ≠ 114 ∧ c ≠ 116 ∧ c ≠ 118 := by
+  unfold simpleEscape? at h
+  repeat' split at h
+  all_goals simp_all
+
+theorem stepEsc_simple (c v : Nat) (h : simpleEscape? c = some v) : stepEsc c = .ok ([v], .plain) := by
+  rcases simpleEscape_cases c v h with ⟨rfl, rfl⟩ | ⟨rfl, rfl⟩ | ⟨rfl, rfl⟩ | ⟨rfl, rfl⟩ | ⟨rfl, rfl⟩ | ⟨rfl, rfl⟩ |
+      ⟨rfl, rfl⟩ | ⟨rfl, rfl⟩ | ⟨rfl, rfl⟩ | ⟨rfl, rfl⟩ <;> rfl
+
+theorem octValue_some (c d : Nat) (h : octValue? c = some d) : 48 ≤ c ∧ c ≤ 55 ∧ d = c - 48 := by
+  unfold octValue? at h
+  split at h
+  · rename_i hc
+    simp only [Bool.and_eq_true, decide_eq_true_eq] at hc
+    simp only [Option.some.injEq] at h
+    omega
+  · cases h
+
+theorem octValue_none (c : Nat) (h : octValue? c = none) : isOctCP c = false := by
+  unfold octValue? at h
+  split at h
+  · cases h
+  · rename_i hc; simpa [isOctCP] using hc
+
+theorem stepEsc_octal (c d : Nat) (h : octValue? c = some d) : stepEsc c = .ok ([], .oct 2 d) := by
+  obtain ⟨h1, h2, rfl⟩ := octValue_some c d h
+  have := stepEsc_oct (c - 48) (by omega)
+  rwa [show 48 + (c - 48) = c by omega] at this
+
+theorem stepEsc_other (c : Nat) (h10 : c ≠ 10) (hs : simpleEscape? c = none) (ho : octValue? c = none)
+    (hx : c ≠ 120) (hu : c ≠ 117) (hU : c ≠ 85) (hN : c ≠ 78) : stepEsc c = .ok ([92, c], .plain) := by
+  obtain ⟨a1, a2, a3, a4, a5, a6, a7, a8, a9, a10⟩ := simpleEscape_none c hs
+  have := octValue_none c ho
+  simp [stepEsc, *]
+
+def toSpec : Except DErr (List Nat) → Except StrErr (List Nat)
+  | .ok v => .ok v
+  | .error .syntax => .error .syntax
+  | .error .oom => .error .named
+
+def sprepend (out : List Nat) : Except StrErr (List Nat) → Except StrErr (List Nat)
+  | .ok v => .ok (out ++ v)
+  | .error e => .error e
+
+theorem toSpec_prepend (out : List Nat) (r : Except DErr (List Nat)) : toSpec (prepend out r) = sprepend out (toSpec r) := by
+  cases r with
+  | ok v => rfl
+  | error e => cases e <;> rfl
+
+theorem enc1_small (x : Nat) (h : x < 128) : enc1 x = [x] := by simp [enc1, h]
+
+theorem enc1_big (x : Nat) (h : ¬ x < 128) : ∃ t, enc1 x = 92 :: t := by
+  unfold enc1
+  simp only [h, if_false]
+  split
+  · exact ⟨_, rfl⟩
+  · split
+    · exact ⟨_, rfl⟩
+    · exact ⟨_, rfl⟩
+
+/-- the first byte of an encoded non-empty text: the character itself if ASCII, else a backslash -/
+theorem enc_head (x : Nat) (r : List Nat) :
+    (x < 128 ∧ encodeAscii (x :: r) = x :: encodeAscii r) ∨ (¬ x < 128 ∧ ∃ t, encodeAscii (x :: r) = 92 :: t) := by
+  by_cases h : x < 128
+  · exact Or.inl ⟨h, by rw [encodeAscii_cons, enc1_small x h]; rfl⟩
+  · obtain ⟨t, ht⟩ := enc1_big x h
+    exact Or.inr ⟨h, t ++ encodeAscii r, by rw [encodeAscii_cons, ht]; rfl⟩
+
+theorem oct_fallthrough (k acc y : Nat) (t : List Nat) (h : (decide (k > 0) && isOctCP y) = false) :
+    decodeFrom (.oct k acc) (y :: t) = prepend [acc] (decodeFrom .plain (y :: t)) := by
+  have h1 : step (.oct k acc) y = .ok (acc :: (stepPlain y).1, (stepPlain y).2) := by simp [step, h]
+  have h2 : step .plain y = .ok ((stepPlain y).1, (stepPlain y).2) := rfl
+  rw [decodeFrom_cons_ok t h1, decodeFrom_cons_ok t h2, prepend_prepend]
+  rfl
+
+theorem oct_end (k acc : Nat) : decodeFrom (.oct k acc) [] = prepend [acc] (decodeFrom .plain []) := rfl
+
+theorem decode_oct_state : ∀ (k acc : Nat) (r : List Nat),
+    decodeFrom (.oct k acc) (encodeAscii r) =
+      prepend [(takeOct k acc r).1] (decodeFrom .plain (encodeAscii (takeOct k acc r).2))
+  | 0, acc, r => by
+    have : takeOct 0 acc r = (acc, r) := by cases r <;> rfl
+    rw [this]
+    cases h : encodeAscii r with
+    | nil => exact oct_end 0 acc
+    | cons y t => exact oct_fallthrough 0 acc y t (by simp)
+  | k + 1, acc, [] => by
+    have : takeOct (k + 1) acc [] = (acc, []) := rfl
+    rw [this]; exact oct_end (k + 1) acc
+  | k + 1, acc, x :: r' => by
+    cases ho : octValue? x with
+    | some d =>
+      obtain ⟨h1, h2, hd⟩ := octValue_some x d ho
+      have hto : takeOct (k + 1) acc (x :: r') = takeOct k (acc * 8 + d) r' := by simp [takeOct, ho]
+      have henc : encodeAscii (x :: r') = x :: encodeAscii r' := by
+        rw [encodeAscii_cons, enc1_small x (by omega)]; rfl
+      have hoct : isOctCP x = true := by simp [isOctCP]; omega
+      rw [hto, henc]
+      cases k with
+      | zero =>
+        have hs : step (.oct 1 acc) x = .ok ([acc * 8 + d], .plain) := by simp [step, hoct, hd]
+        have : takeOct 0 (acc * 8 + d) r' = (acc * 8 + d, r') := by cases r' <;> rfl
+        rw [decodeFrom_cons_ok _ hs, this]
+      | succ k =>
+        have hs : step (.oct (k + 1 + 1) acc) x = .ok ([], .oct (k + 1) (acc * 8 + d)) := by simp [step, hoct, hd]
+        rw [decodeFrom_cons_ok _ hs, prepend_nil]
+        exact decode_oct_state (k + 1) (acc * 8 + d) r'
+    | none =>
+      have hto : takeOct (k + 1) acc (x :: r') = (acc, x :: r') := by simp [takeOct, ho]
+      rw [hto]
+      rcases enc_head x r' with ⟨_, he⟩ | ⟨_, t, he⟩
+      · rw [he]; exact oct_fallthrough (k + 1) acc x _ (by simp [octValue_none x ho])
+      · rw [he]; exact oct_fallthrough (k + 1) acc 92 t (by simp [isOctCP])
+
+theorem hexValue_eq (c : Nat) : hexValue? c = hexValCP c := rfl
+
+theorem hexVal_some (x d : Nat) (h : hexValCP x = some d) : x < 128 ∧ x ≠ 92 := by
+  unfold hexValCP at h
+  repeat' split at h
+  all_goals simp_all
+  all_goals omega
+
+theorem hex_bad (n acc y : Nat) (t : List Nat) (h : hexValCP y = none) :
+    decodeFrom (.hex n acc) (y :: t) = .error .syntax := by
+  simp [decodeFrom, step, h]
+
+theorem hex_end (n acc : Nat) : decodeFrom (.hex n acc) [] = .error .syntax := rfl
+
+/-- `r'` is what is left of `r` after dropping characters other than the backslash -/
+def PlainSuffix (r r' : List Nat) : Prop := ∃ pre, r = pre ++ r' ∧ ∀ x ∈ pre, x ≠ 92
+
+theorem PlainSuffix.refl (r : List Nat) : PlainSuffix r r := ⟨[], rfl, by simp⟩
+
+theorem PlainSuffix.cons {x : Nat} {r r' : List Nat} (hx : x ≠ 92) (h : PlainSuffix r r') : PlainSuffix (x :: r) r' := by
+  obtain ⟨pre, rfl, hp⟩ := h
+  exact ⟨x :: pre, rfl, by intro y hy; simp only [List.mem_cons] at hy; rcases hy with rfl | hy; exact hx; exact hp y hy⟩
+
+theorem decode_hex_none : ∀ (n acc : Nat) (r : List Nat), takeHex (n + 1) acc r = none →
+    decodeFrom (.hex (n + 1) acc) (encodeAscii r) = .error .syntax
+  | n, acc, [], _ => hex_end _ _
+  | n, acc, x :: r1, h => by
+    cases hv : hexValCP x with
+    | none =>
+      rcases enc_head x r1 with ⟨_, he⟩ | ⟨_, t, he⟩
+      · rw [he]; exact hex_bad _ _ x _ hv
+      · rw [he]; exact hex_bad _ _ 92 t rfl
+    | some d =>
+      have hx := hexVal_some x d hv
+      have henc : encodeAscii (x :: r1) = x :: encodeAscii r1 := by rw [encodeAscii_cons, enc1_small x hx.1]; rfl
+      simp only [takeHex, hexValue_eq, hv] at h
+      rw [henc]
+      cases n with
+      | zero => simp [takeHex] at h
+      | succ n =>
+        have hs : step (.hex (n + 1 + 1) acc) x = .ok ([], .hex (n + 1) (acc * 16 + d)) := by simp [step, hv]
+        rw [decodeFrom_cons_ok _ hs, prepend_nil]
+        exact decode_hex_none n (acc * 16 + d) r1 h
+
+theorem decode_hex_some : ∀ (n acc : Nat) (r : List Nat) (v : Nat) (r' : List Nat), takeHex (n + 1) acc r = some (v, r') →
+    decodeFrom (.hex (n + 1) acc) (encodeAscii r) =
+      (if v > 0x10ffff then .error .syntax else prepend [v] (decodeFrom .plain (encodeAscii r'))) ∧ PlainSuffix r r'
+  | n, acc, [], v, r', h => by simp [takeHex] at h
+  | n, acc, x :: r1, v, r', h => by
+    cases hv : hexValCP x with
+    | none => simp [takeHex, hexValue_eq, hv] at h
+    | some d =>
+      have hx := hexVal_some x d hv
+      have henc : encodeAscii (x :: r1) = x :: encodeAscii r1 := by rw [encodeAscii_cons, enc1_small x hx.1]; rfl
+      simp only [takeHex, hexValue_eq, hv] at h
+      rw [henc]
+      cases n with
+      | zero =>
+        simp only [takeHex, Option.some.injEq, Prod.mk.injEq] at h
+        obtain ⟨rfl, rfl⟩ := h
+        refine ⟨?_, PlainSuffix.cons hx.2 (PlainSuffix.refl _)⟩
+        by_cases hb : acc * 16 + d > 0x10ffff
+        · simp [decodeFrom, step, hv, hb]
+        · have hs : step (.hex 1 acc) x = .ok ([acc * 16 + d], .plain) := by simp [step, hv, hb]
+          rw [decodeFrom_cons_ok _ hs]; simp [hb]
+      | succ n =>
+        have hs : step (.hex (n + 1 + 1) acc) x = .ok ([], .hex (n + 1) (acc * 16 + d)) := by simp [step, hv]
+        rw [decodeFrom_cons_ok _ hs, prepend_nil]
+        have ih := decode_hex_some n (acc * 16 + d) r1 v r' h
+        exact ⟨ih.1, PlainSuffix.cons hx.2 ih.2⟩
+
+theorem strValueF_esc_ok (n c : Nat) (r out r' : List Nat) (h : escapeItem c r = .ok (out, r')) :
+    strValueF (n + 1) (92 :: c :: r) = sprepend out (strValueF n r') := by
+  simp only [strValueF, h]
+  cases strValueF n r' <;> rfl
+
+theorem strValueF_esc_err (n c : Nat) (r : List Nat) (e : StrErr) (h : escapeItem c r = .error e) :
+    strValueF (n + 1) (92 :: c :: r) = .error e := by
+  simp only [strValueF, h]
+
+theorem strValueF_plain (n c : Nat) (r : List Nat) (hc : c ≠ 92) :
+    strValueF (n + 1) (c :: r) = sprepend [c] (strValueF n r) := by
+  rw [JinjaV.Spec.PyLit.strValueF.eq_5 n c r (by intro h; exact absurd h hc) (by intro c' r' h; exact absurd h hc)]
+  cases strValueF n r <;> rfl
+
+theorem takeOct_suffix : ∀ (k acc : Nat) (r : List Nat), PlainSuffix r (takeOct k acc r).2
+  | 0, acc, r => by cases r <;> exact PlainSuffix.refl _
+  | k + 1, acc, [] => PlainSuffix.refl _
+  | k + 1, acc, x :: r' => by
+    cases ho : octValue? x with
+    | some d =>
+      have : takeOct (k + 1) acc (x :: r') = takeOct k (acc * 8 + d) r' := by simp [takeOct, ho]
+      rw [this]
+      exact PlainSuffix.cons (by have := octValue_some x d ho; omega) (takeOct_suffix k _ r')
+    | none =>
+      have : takeOct (k + 1) acc (x :: r') = (acc, x :: r') := by simp [takeOct, ho]
+      rw [this]; exact PlainSuffix.refl _
+
+theorem f13Free_plain {x : Nat} {r : List Nat} (hx : x ≠ 92) (h : f13Free (x :: r) = true) : f13Free r = true := by
+  unfold f13Free at h
+  split at h
+  · rename_i heq; cases heq
+  · rename_i heq; cases heq; exact absurd rfl hx
+  · rename_i heq; cases heq; exact h
+
+theorem f13Free_suffix {r r' : List Nat} (h : PlainSuffix r r') (hf : f13Free r = true) : f13Free r' = true := by
+  obtain ⟨pre, rfl, hp⟩ := h
+  induction pre with
+  | nil => simpa using hf
+  | cons x pre ih =>
+    exact ih (fun y hy => hp y (by simp [hy])) (f13Free_plain (hp x (by simp)) hf)
+
+theorem suffix_length {r r' : List Nat} (h : PlainSuffix r r') : r'.length ≤ r.length := by
+  obtain ⟨pre, rfl, _⟩ := h; simp
+
+theorem suffix_mem {r r' : List Nat} (h : PlainSuffix r r') : ∀ x ∈ r', x ∈ r := by
+  obtain ⟨pre, rfl, _⟩ := h; intro x hx; simp [hx]
+
+theorem f13Free_esc {c : Nat} {r : List Nat} (h : f13Free (92 :: c :: r) = true) : c < 128 ∧ f13Free r = true := by
+  simpa [f13Free] using h
+def Bounded (b : List Nat) : Prop := ∀ c ∈ b, c < 0x110000
+
+theorem decode_raw (c : Nat) (h92 : c ≠ 92) (hlt : c < 0x110000) (rest : List Nat) :
+    decodeFrom .plain (enc1 c ++ rest) = prepend [c] (decodeFrom .plain rest) := by
+  by_cases h1 : c < 128
+  · have hs : step .plain c = .ok ([c], .plain) := by simp [step, stepPlain, h92]
+    have e1 : enc1 c = [c] := by simp [enc1, h1]
+    rw [e1, List.singleton_append, decodeFrom_cons_ok _ hs]
+  · by_cases h2 : c < 256
+    · have e1 : enc1 c = 92 :: 120 :: hexN 2 c := by simp [enc1, h1, h2]
+      rw [e1]; exact decode_x c rest h2
+    · by_cases h3 : c < 65536
+      · have e1 : enc1 c = 92 :: 117 :: hexN 4 c := by simp [enc1, h1, h2, h3]
+        rw [e1]; exact decode_u c rest h3
+      · have e1 : enc1 c = 92 :: 85 :: hexN 8 c := by simp [enc1, h1, h2, h3]
+        rw [e1]; exact decode_U c rest hlt
+
+theorem sprepend_nil (r : Except StrErr (List Nat)) : sprepend [] r = r := by cases r <;> simp [sprepend]
+
+theorem esc_start (c : Nat) (r : List Nat) (hc : c < 128) :
+    decodeFrom .plain (encodeAscii (92 :: c :: r)) = decodeFrom .esc (c :: encodeAscii r) := by
+  have h1 : step .plain 92 = .ok ([], .esc) := rfl
+  have e : encodeAscii (92 :: c :: r) = 92 :: c :: encodeAscii r := by
+    rw [encodeAscii_cons, encodeAscii_cons, enc1_small 92 (by decide), enc1_small c hc]; rfl
+  rw [e, decodeFrom_cons_ok _ h1, prepend_nil]
+
+theorem esc_step {c : Nat} {out : List Nat} {st : DState} (E : List Nat) (h : stepEsc c = .ok (out, st)) :
+    decodeFrom .esc (c :: E) = prepend out (decodeFrom st E) :=
+  decodeFrom_cons_ok E (show step .esc c = .ok (out, st) from h)
+
+/-- one escape item: the decoder and the reference table agree on `\\ c …`, given that they agree on every text that is left
+    after the item -/
+theorem escape_item_step (n c : Nat) (r : List Nat) (hc : c < 128)
+    (cont : ∀ r', PlainSuffix r r' → toSpec (decodeFrom .plain (encodeAscii r')) = strValueF n r') :
+    toSpec (decodeFrom .plain (encodeAscii (92 :: c :: r))) = strValueF (n + 1) (92 :: c :: r) := by
+  rw [esc_start c r hc]
+  by_cases h10 : c = 10
+  · subst h10
+    have hi : escapeItem 10 r = .ok ([], r) := by simp [escapeItem]
+    rw [strValueF_esc_ok n 10 r [] r hi, esc_step _ (show stepEsc 10 = .ok ([], .plain) from rfl), prepend_nil,
+      sprepend_nil, cont r (PlainSuffix.refl r)]
+  · cases hs : simpleEscape? c with
+    | some v =>
+      have hi : escapeItem c r = .ok ([v], r) := by simp [escapeItem, h10, hs]
+      rw [strValueF_esc_ok n c r [v] r hi, esc_step _ (stepEsc_simple c v hs), toSpec_prepend, cont r (PlainSuffix.refl r)]
+    | none =>
+      cases ho : octValue? c with
+      | some d =>
+        have hi : escapeItem c r = .ok ([(takeOct 2 d r).1], (takeOct 2 d r).2) := by simp [escapeItem, h10, hs, ho]
+        rw [strValueF_esc_ok n c r _ _ hi, esc_step _ (stepEsc_octal c d ho), prepend_nil, decode_oct_state 2 d r,
+          toSpec_prepend, cont _ (takeOct_suffix 2 d r)]
+      | none =>
+        have hexcase : ∀ (w : Nat), (c = 120 ∧ w = 1) ∨ (c = 117 ∧ w = 3) ∨ (c = 85 ∧ w = 7) →
+            stepEsc c = .ok ([], .hex (w + 1) 0) →
+            (takeHex (w + 1) 0 r = none → escapeItem c r = .error .syntax) →
+            (∀ v r', takeHex (w + 1) 0 r = some (v, r') →
+              escapeItem c r = if v > 0x10ffff then .error .syntax else .ok ([v], r')) →
+            toSpec (decodeFrom .esc (c :: encodeAscii r)) = strValueF (n + 1) (92 :: c :: r) := by
+          intro w _ hst hnone hsome
+          rw [esc_step _ hst, prepend_nil]
+          cases ht : takeHex (w + 1) 0 r with
+          | none =>
+            rw [strValueF_esc_err n c r .syntax (hnone ht), decode_hex_none w 0 r ht]; rfl
+          | some p =>
+            obtain ⟨v, r'⟩ := p
+            have hi := hsome v r' ht
+            have hd := decode_hex_some w 0 r v r' ht
+            rw [hd.1]
+            by_cases hv : v > 0x10ffff
+            · simp only [hv, if_true] at hi ⊢
+              rw [strValueF_esc_err n c r .syntax hi]; rfl
+            · simp only [hv, if_false] at hi ⊢
+              rw [strValueF_esc_ok n c r [v] r' hi, toSpec_prepend, cont r' hd.2]
+        by_cases hx : c = 120
+        · subst hx
+          exact hexcase 1 (Or.inl ⟨rfl, rfl⟩) rfl (by intro h; simp [escapeItem, hs, ho, h]) (by intro v r' h; simp [escapeItem, hs, ho, h])
+        · by_cases hu : c = 117
+          · subst hu
+            exact hexcase 3 (Or.inr (Or.inl ⟨rfl, rfl⟩)) rfl (by intro h; simp [escapeItem, hs, ho, h]) (by intro v r' h; simp [escapeItem, hs, ho, h])
+          · by_cases hU : c = 85
+            · subst hU
+              exact hexcase 7 (Or.inr (Or.inr ⟨rfl, rfl⟩)) rfl (by intro h; simp [escapeItem, hs, ho, h]) (by intro v r' h; simp [escapeItem, hs, ho, h])
+            · by_cases hN : c = 78
+              · subst hN
+                have hi : escapeItem 78 r = .error .named := by simp [escapeItem, hs, ho]
+                rw [strValueF_esc_err n 78 r .named hi]
+                simp [decodeFrom, step, stepEsc, isOctCP, toSpec]
+              · have hi : escapeItem c r = .ok ([92, c], r) := by simp [escapeItem, h10, hs, ho, hx, hu, hU, hN]
+                rw [strValueF_esc_ok n c r _ r hi, esc_step _ (stepEsc_other c h10 hs ho hx hu hU hN), toSpec_prepend,
+                  cont r (PlainSuffix.refl r)]
+
+/-- The whole-body agreement: on a body in which no escape-position backslash is directly followed by a non-ASCII
+    code point, `backslashreplace` + `unicode-escape` computes what the reference escape table says. -/
+theorem escape_spec : ∀ (n : Nat) (b : List Nat), b.length < n → f13Free b = true → Bounded b →
+    toSpec (decodeFrom .plain (encodeAscii b)) = strValueF n b
+  | 0, _, h, _, _ => by omega
+  | n + 1, [], _, _, _ => rfl
+  | n + 1, c :: r, hlen, hf, hb => by
+    have hlr : r.length < n := by simp at hlen; omega
+    by_cases hc : c = 92
+    · subst hc
+      cases r with
+      | nil => rfl
+      | cons c' r' =>
+        obtain ⟨hc', hfr⟩ := f13Free_esc hf
+        have hbr : Bounded r' := fun x hx => hb x (by simp [hx])
+        apply escape_item_step n c' r' hc'
+        intro r'' hs
+        exact escape_spec n r'' (by have := suffix_length hs; simp at hlr; omega) (f13Free_suffix hs hfr)
+          (fun x hx => hbr x (suffix_mem hs x hx))
+    · rw [encodeAscii_cons, decode_raw c hc (hb c (by simp)) _, toSpec_prepend, strValueF_plain n c r hc,
+        escape_spec n r hlr (f13Free_plain hc hf) (fun x hx => hb x (by simp [hx]))]
+
+theorem normNl_mem (s : List Nat) : ∀ x ∈ normNl s, x ∈ s ∨ x = 10 := by
+  fun_induction normNl s with
+  | case1 => intro x hx; simp at hx
+  | case2 r ih =>
+    intro x hx
+    simp only [List.mem_cons] at hx
+    rcases hx with rfl | hx
+    · exact Or.inr rfl
+    · rcases ih x hx with h | h
+      · exact Or.inl (by simp [h])
+      · exact Or.inr h
+  | case3 r _ ih =>
+    intro x hx
+    simp only [List.mem_cons] at hx
+    rcases hx with rfl | hx
+    · exact Or.inr rfl
+    · rcases ih x hx with h | h
+      · exact Or.inl (by simp [h])
+      · exact Or.inr h
+  | case4 c r _ _ ih =>
+    intro x hx
+    simp only [List.mem_cons] at hx
+    rcases hx with rfl | hx
+    · exact Or.inl (by simp)
+    · rcases ih x hx with h | h
+      · exact Or.inl (by simp [h])
+      · exact Or.inr h
+
+/-- `wrap`'s string pipeline against the reference escape table, for a whole body -/
+theorem unescape_spec (body : List Nat) (hb : ∀ c ∈ body, c < 0x110000) (hf : f13Free (normNl body) = true) :
+    toSpec (unescapeBody body) = strValue (normNl body) := by
+  unfold unescapeBody decodeEscapes strValue
+  apply escape_spec _ _ (by omega) hf
+  intro x hx
+  rcases normNl_mem body x hx with h | h
+  · exact hb x h
+  · omega
+
+end escapes
+
 end JinjaV.Literal
